@@ -138,6 +138,183 @@ def sym_class(P):
     return "sym" if (P.shape[0] % 2 == 1 and np.array_equal(P, P[::-1, :]) and np.array_equal(P, P[:, ::-1])) else "asym"
 
 
+
+# ----------------------------------------------------------------------------- observation maps that MOVE nodes
+MOVED = ("shift", "one", "warp")
+
+
+def obs_map(kind, ep):
+    """observation_grid_map for the PDE problems; the MOVED kinds keep length and end nodes"""
+    if kind == "half":
+        return lambda g: g[g > ep / 2]
+    if kind == "even":
+        return lambda g: g[::2]
+    if kind == "shift":      # every interior node moved by a quarter cell
+        def f(g):
+            g = np.array(g, dtype=float); g[1:-1] += 0.25 * (g[1] - g[0]); return g
+        return f
+    if kind == "one":        # everything kept but one interior node
+        def f(g):
+            g = np.array(g, dtype=float); k = len(g) // 2; g[k] += 0.4 * (g[1] - g[0]); return g
+        return f
+    if kind == "warp":       # a different grid of the same length between the same end nodes
+        def f(g):
+            g = np.array(g, dtype=float); t = np.linspace(0, 1, len(g)); return g[0] + (g[-1] - g[0]) * t ** 1.5
+        return f
+    return None
+
+
+def interp_obs(problem, grid_sol, u_full, grid_obs):
+    """independent evaluation of the documented observation operator: the interpolant the PDE classes document
+    (steady: quadratic interp1d; time dependent: bicubic spline, which on a stored time level is the cubic
+    interpolating spline in space), scipy called directly"""
+    from scipy.interpolate import interp1d, InterpolatedUnivariateSpline
+    if problem == "Poisson1D":
+        return np.asarray(interp1d(grid_sol, u_full, kind="quadratic")(grid_obs), dtype=float)
+    return np.asarray(InterpolatedUnivariateSpline(grid_sol, u_full, k=3)(grid_obs), dtype=float)
+
+
+def vrel(a, b, tol):
+    """scale-free closeness of two vectors (extreme scales: no absolute floor)"""
+    a, b = A1(a), A1(b)
+    if a.shape != b.shape:
+        return False
+    if not (np.all(np.isfinite(a)) and np.all(np.isfinite(b))):
+        return bool(np.array_equal(np.isfinite(a), np.isfinite(b)))
+    sc = max(float(np.max(np.abs(a), initial=0.0)), float(np.max(np.abs(b), initial=0.0)))
+    return bool(np.max(np.abs(a - b), initial=0.0) <= tol * sc)
+
+
+def snap_arrays(d):
+    return {k: (v.dtype.str, v.shape, v.tobytes()) for k, v in d.items() if isinstance(v, np.ndarray)}
+
+
+def caller_objects_check(ctx, name, desc, objs, before, when):
+    """G2: arrays the caller passed in are never modified"""
+    after = snap_arrays(objs)
+    bad = [k for k in before if before[k] != after.get(k)]
+    if bad:
+        ctx.fail(f"{name}:caller-object-mutated:{when}", {**desc, "objects": bad}, "caller-owned arrays unchanged", bad,
+                 f"arrays passed by the caller were modified ({when})")
+
+
+def alias_check(ctx, name, desc, tp):
+    """G3: data and exactData are distinct buffers (noise must not be written into the exact data)"""
+    try:
+        if tp.exactData is not None and isinstance(tp.data, np.ndarray) and np.shares_memory(np.asarray(tp.data), np.asarray(tp.exactData)):
+            ctx.fail(f"{name}:alias:data-exactData", desc, "distinct buffers", "shared memory", "data and exactData share memory")
+    except Exception:
+        pass
+
+
+def tp_snapshot(tp):
+    """byte snapshot of everything the problem hands out"""
+    out = {}
+    def put(k, v):
+        try:
+            a = np.asarray(v)
+            out[k] = (a.dtype.str, a.shape, a.tobytes())
+        except Exception as e:
+            out[k] = ("err", repr(e)[:60])
+    put("data", tp.data); put("likelihood.data", tp.likelihood.data)
+    if tp.exactData is not None:
+        put("exactData", tp.exactData)
+    if tp.exactSolution is not None:
+        put("exactSolution", tp.exactSolution)
+    out["infoString"] = getattr(tp, "infoString", None)
+    pr = tp.prior
+    for a in ("mean", "cov", "location", "scale"):
+        if hasattr(pr, a) and not callable(getattr(pr, a)):
+            put("prior." + a, getattr(pr, a))
+    put("likelihood.cov", tp.likelihood.distribution.cov)
+    from cuqi.model import LinearModel
+    with quiet():
+        try:
+            if isinstance(tp.model, LinearModel):
+                put("model.matrix", dense(tp.model.get_matrix()))
+        except Exception:
+            pass
+    return out
+
+
+def check_history(ctx, name, desc, build, new_prior=None, ops=("MAP", "MAP"), sample=0):
+    """G5 / read-only operations: MAP / ML / sample_posterior must not change what the problem hands out; a repeated
+    call gives the same result, equal to that of a freshly built identical problem (same scripted stream)."""
+    with quiet():
+        tp, fresh = build(), build()
+        if new_prior is not None:
+            tp.prior = new_prior()
+            fresh.prior = new_prior()
+    d = {**desc, "history": list(ops) + ([f"sample_posterior({sample})"] if sample else [])}
+    ctx.case("history", d)
+    s0 = tp_snapshot(tp)
+    if s0 != tp_snapshot(fresh):
+        ctx.fail(f"{name}:history:construction-not-reproducible", d, "identical problems from identical options and random stream", "differ")
+        return
+    n = tp.model.domain_dim
+    x = np.linspace(0.25, 1.0, n)
+    def logd(t):
+        with quiet():
+            try:
+                return float(np.asarray(t.posterior.logd(x)).ravel()[0])
+            except Exception:
+                return float("nan")
+    l0 = logd(tp)
+    results = []
+    mutated = False
+    for k, op in enumerate(ops):
+        with quiet():
+            try:
+                r = A1(tp.MAP(disp=False)) if op == "MAP" else A1(tp.ML(disp=False))
+            except Exception as e:
+                r = None
+                ctx.note(f"{name} {op} raised at {d}: {repr(e)[:80]}")
+        results.append((op, r))
+        s1 = tp_snapshot(tp)
+        changed = [f for f in s0 if s0[f] != s1.get(f)]
+        if changed:
+            ctx.fail(f"{name}:history:{op}:mutates:{changed[0]}", {**d, "after_call": k + 1, "changed": changed}, "components unchanged by a read-only call", changed,
+                     f"{op}() changed what the test problem hands out ({', '.join(changed)})")
+            mutated = True
+            break
+        l1 = logd(tp)
+        if math.isfinite(l0) and not close(l1, l0, 1e-12):
+            ctx.fail(f"{name}:history:{op}:mutates:posterior.logd", {**d, "after_call": k + 1}, l0, l1, f"posterior.logd changed after {op}()")
+            break
+    # repeated call == first call == fresh problem
+    firsts = {}
+    for op, r in results:
+        if r is None:
+            continue
+        if op in firsts and (r.shape != firsts[op].shape or not vrel(r, firsts[op], 1e-9)):
+            ctx.fail(f"{name}:history:{op}:repeat", d, list(firsts[op][:6]), list(r[:6]), f"a second {op}() gives a different result")
+        firsts.setdefault(op, r)
+    for op, r in firsts.items():
+        with quiet():
+            try:
+                rf = A1(fresh.MAP(disp=False)) if op == "MAP" else A1(fresh.ML(disp=False))
+            except Exception:
+                rf = None
+        if rf is not None and (r.shape != rf.shape or not vrel(r, rf, 1e-9)):
+            ctx.fail(f"{name}:history:{op}:fresh", d, list(rf[:6]), list(r[:6]), f"{op}() differs from that of a freshly built identical problem")
+    if sample and not mutated:
+        st = np.random.get_state()
+        try:
+            np.random.seed(12345)
+            with quiet():
+                try:
+                    tp.sample_posterior(sample)
+                except Exception as e:
+                    ctx.note(f"{name} sample_posterior raised at {d}: {repr(e)[:80]}")
+        finally:
+            np.random.set_state(st)
+        s2 = tp_snapshot(tp)
+        changed = [f for f in s0 if s0[f] != s2.get(f)]
+        if changed:
+            ctx.fail(f"{name}:history:sample_posterior:mutates:{changed[0]}", {**d, "changed": changed}, "components unchanged by sampling", changed,
+                     "sample_posterior() changed what the test problem hands out")
+
+
 # ----------------------------------------------------------------------------- shared checks
 def check_components(ctx, B, name, tp, desc):
     """get_components / accessor identities (oracle) and the model's plumbing record (tie)"""
@@ -265,7 +442,7 @@ def stated_noise_oracle(ctx, key, desc, data, exact, std_vec, S, kind):
     xi = calls[0][1].ravel()
     if kind == "normal" and not (float(np.max(np.abs(np.asarray(calls[0][2])))) == 0.0):
         ctx.fail(key, desc, "zero-mean noise", float(np.max(np.abs(np.asarray(calls[0][2])))), "noise has non-zero mean")
-    if not vclose(data, exact + std_vec * xi, 1e-9) or not vclose((data - exact), std_vec * xi, 1e-6 * float(np.max(np.abs(std_vec))) if np.max(np.abs(std_vec)) > 0 else 1e-12):
+    if not vrel(data, exact + std_vec * xi, 1e-9) or not vclose((data - exact), std_vec * xi, 1e-6 * float(np.max(np.abs(std_vec))) if np.max(np.abs(std_vec)) > 0 else 1e-12):
         ctx.fail(key, desc, list((exact + std_vec * xi)[:6]), list(data[:6]), "data - exactData is not the stated noise level times the normal draw")
     return xi
 
@@ -334,10 +511,15 @@ def case_deconv1d(ctx, cuqi, T, B1, B2, cfg, sid):
     dim, psf, bc, ph, ntype, nstd, legacy = cfg["dim"], cfg["psf"], cfg["bc"], cfg["phantom"], cfg["noise_type"], cfg["noise_std"], cfg.get("legacy", False)
     desc = {"problem": "Deconvolution1D", **{k: (v if not isinstance(v, tuple) else list(v)) for k, v in cfg.items() if k != "prior"}, "prior": cfg["prior"][0]}
     kw = dict(dim=dim, BC=bc, noise_type=ntype, noise_std=nstd, prior=cfg["prior"][1])
-    kw["PSF"] = np.array(psf[1]) if psf[0] == "arr" else psf[1]
+    dt = cfg.get("dtype", "float64")
+    kw["PSF"] = np.array(psf[1]).astype(dt if dt != "bool" else "int64") if psf[0] == "arr" else psf[1]
     if psf[0] == "name":
         kw["PSF_param"], kw["PSF_size"] = psf[2], psf[3]
-    kw["phantom"] = np.array(ph[1]) if ph[0] == "arr" else ph[1]
+    kw["phantom"] = np.array(ph[1]).astype(dt) if ph[0] == "arr" else ph[1]
+    caller = dict(kw)
+    if cfg["prior"][1] is not None and isinstance(getattr(cfg["prior"][1], "mean", None), np.ndarray):
+        caller["prior.mean"] = cfg["prior"][1].mean
+    before = snap_arrays(caller)
     if ph[0] == "name":
         kw["phantom_param"] = ph[2]
     if legacy:
@@ -351,7 +533,8 @@ def case_deconv1d(ctx, cuqi, T, B1, B2, cfg, sid):
     # leaves
     try:
         with quiet():
-            x_leaf = np.array(ph[1]) if ph[0] == "arr" else np.asarray(T._getExactSolution(dim, ph[1], ph[2]), dtype=float)
+            x_leaf = (np.array(ph[1]).astype(cfg.get("dtype", "float64")).astype(float) if ph[0] == "arr"
+                      else np.asarray(T._getExactSolution(dim, ph[1], ph[2]), dtype=float))
     except Exception:
         x_leaf = None
     if legacy:
@@ -432,21 +615,23 @@ def case_deconv1d(ctx, cuqi, T, B1, B2, cfg, sid):
         else:
             ctx.extra_cov.setdefault("deconv1d_operator", {}).setdefault("equal", 0)
             ctx.extra_cov["deconv1d_operator"]["equal"] += 1
+        caller_objects_check(ctx, "Deconvolution1D", desc, caller, before, "construction+forward")
+        alias_check(ctx, "Deconvolution1D", desc, tp)
         # --- exact solution / exact data
         xs = A1(tp.exactSolution)
-        if not vclose(xs, x_leaf, 1e-12):
+        if not vrel(xs, x_leaf, 1e-12):
             ctx.fail("Deconvolution1D:exactSolution", desc, list(x_leaf[:6]), list(xs[:6]), "exactSolution is not the stated phantom")
         ye = A1(tp.exactData)
-        if not vclose(ye, yasm, 1e-10):
+        if not vrel(ye, yasm, 1e-10):
             ctx.disagree("tie:Deconvolution1D:exactData", desc, r1["asm"][:200], list(ye[:8]), "exactData")
         with quiet():
             yf = A1(tp.model.forward(tp.exactSolution))
-        if not vclose(ye, yf, 1e-12):
+        if not vrel(ye, yf, 1e-12):
             ctx.fail("Deconvolution1D:exactData", desc, list(yf[:8]), list(ye[:8]), "exactData is not model.forward(exactSolution)")
-            if not vclose(ye, yasm, 1e-10):
+            if not vrel(ye, yasm, 1e-10):
                 ctx.fail("tie:Deconvolution1D:exactData", desc, list(yf[:8]), list(ye[:8]), "exactData is not model.forward(exactSolution)")
-        elif not vclose(ye, yasm, 1e-10):
-            ctx.fail("tie:Deconvolution1D:exactData", desc, list(ydoc[:8]), list(ye[:8]), "exactData differs from the modelled operator applied to the phantom") if not vclose(ye, ydoc, 1e-10) else None
+        elif not vrel(ye, yasm, 1e-10):
+            ctx.fail("tie:Deconvolution1D:exactData", desc, list(ydoc[:8]), list(ye[:8]), "exactData differs from the modelled operator applied to the phantom") if not vrel(ye, ydoc, 1e-10) else None
         # --- info string
         B2.add([f"cap {ntype}"], lambda o: cb_info(o))
         # --- noise
@@ -455,7 +640,7 @@ def case_deconv1d(ctx, cuqi, T, B1, B2, cfg, sid):
         # --- likelihood covariance, logd, components
         cov_stated = (np.full(dim, nstd ** 2) if not scaled else (ye * nstd) ** 2)
         cov_impl = np.asarray(tp.likelihood.distribution.cov, dtype=float).ravel()
-        if not vclose(np.broadcast_to(cov_impl, (dim,)) if cov_impl.size in (1, dim) else cov_impl, cov_stated, 1e-12):
+        if not vrel(np.broadcast_to(cov_impl, (dim,)) if cov_impl.size in (1, dim) else cov_impl, cov_stated, 1e-12):
             ctx.fail("Deconvolution1D:likelihood:cov", desc, list(cov_stated[:6]), list(cov_impl[:6]), "likelihood covariance is not the stated noise level")
         rs = np.random.RandomState(sid + 7)
         check_logd(ctx, B2, "Deconvolution1D", tp, desc, cov_stated, lambda x: Aasm @ x, rs)
@@ -492,9 +677,9 @@ def case_deconv1d(ctx, cuqi, T, B1, B2, cfg, sid):
                 stated_noise_oracle(ctx, "tie:" + key, desc, data, ye, std, S, "randn")
             return
         r = kv(o[0])
-        if not vclose(data, fvec(r["path"]), 1e-9):
+        if not vrel(data, fvec(r["path"]), 1e-9):
             ctx.disagree("tie:" + key, desc, r["path"][:160], list(data[:6]), "data vs modelled sampling path")
-            if vclose(data, fvec(r["doc"]), 1e-9):
+            if vrel(data, fvec(r["doc"]), 1e-9):
                 ctx.note("data agree with the documented form but not with the sampling path model")
             else:
                 ctx.fail("tie:" + key, desc, r["doc"][:160], list(data[:6]), "data are not exactData + stated noise")
@@ -551,7 +736,7 @@ def case_legacy(ctx, B1, B2, cfg, desc, tp, err, S, x_leaf, sid):
         ye = A1(tp.exactData)
         with quiet():
             yf = A1(tp.model.forward(tp.exactSolution))
-        if not vclose(ye, yf, 1e-12) or not vclose(ye, Aasm @ A1(tp.exactSolution), 1e-10):
+        if not vrel(ye, yf, 1e-12) or not vrel(ye, Aasm @ A1(tp.exactSolution), 1e-10):
             ctx.disagree("tie:Deconvolution1D:legacy:exactData", desc, list((Aasm @ A1(tp.exactSolution))[:6]), list(ye[:6]))
             ctx.fail("tie:Deconvolution1D:legacy:exactData", desc, list(yf[:6]), list(ye[:6]), "exactData is not model.forward(exactSolution)")
         if x_leaf is not None and not vclose(A1(tp.exactSolution), x_leaf, 1e-12):
@@ -596,7 +781,14 @@ def case_deconv2d(ctx, cuqi, T, B1, B2, cfg, sid):
         kw["PSF"] = np.array(psf[1])
     else:
         kw["PSF"], kw["PSF_param"], kw["PSF_size"] = psf[1], psf[2], psf[3]
-    kw["phantom"] = np.array(ph[1]).reshape(dim, dim) if ph[0] == "arr" else ph[1]
+    dt = cfg.get("dtype", "float64")
+    kw["phantom"] = np.array(ph[1]).reshape(dim, dim).astype(dt) if ph[0] == "arr" else ph[1]
+    if psf[0] == "arr" and dt.startswith("int"):     # (a float32 PSF makes scipy's fftconvolve work in single precision: ~1e-8, observation)
+        kw["PSF"] = kw["PSF"].astype(dt)
+    caller = dict(kw)
+    if cfg["prior"][1] is not None and isinstance(getattr(cfg["prior"][1], "mean", None), np.ndarray):
+        caller["prior.mean"] = cfg["prior"][1].mean
+    before = snap_arrays(caller)
     with scripted(sid) as S, quiet():
         try:
             tp = Deconvolution2D(**kw)
@@ -622,6 +814,8 @@ def case_deconv2d(ctx, cuqi, T, B1, B2, cfg, sid):
         x_leaf = np.array(ph[1], dtype=float) if ph[0] == "arr" else np.asarray(getattr(cuqi.data, ph[1])(size=dim), dtype=float).flatten()
     cls = sym_class(P)
     n2 = dim * dim
+    # a float32 image makes np.pad/fftconvolve work in single precision (observation in docs): compare at that precision
+    ytol = 1e-6 if cfg.get("dtype") == "float32" else 1e-9
     lines = [f"dc2m {bc} {dim} {qm(P)}", f"dc2 {bc} {dim} {qm(P)} {qv(x_leaf)}"]
     yref_holder = [np.zeros(0)]
 
@@ -655,19 +849,21 @@ def case_deconv2d(ctx, cuqi, T, B1, B2, cfg, sid):
             k = "transposed" if mclose(F, Adoc.T, 1e-11) else "wrong"
             ctx.fail(f"Deconvolution2D:operator:{k}:BC={bc.lower()}:{cls}", desc, r0["doc"][:200], str(F.tolist())[:200],
                      "forward model is not the documented 2-D convolution (stated PSF, stated BC)")
+        caller_objects_check(ctx, "Deconvolution2D", desc, caller, before, "construction+forward")
+        alias_check(ctx, "Deconvolution2D", desc, tp)
         xs = A1(tp.exactSolution)
-        if not vclose(xs, x_leaf, 1e-9):
+        if not vrel(xs, x_leaf, 1e-9):
             ctx.fail("Deconvolution2D:exactSolution", desc, list(x_leaf[:6]), list(xs[:6]), "exactSolution is not the stated phantom")
         ye = A1(tp.exactData)
-        if not vclose(ye, ydoc, 1e-9):
+        if not vrel(ye, ydoc, ytol):
             ctx.disagree("tie:Deconvolution2D:exactData", desc, outs[1][:160], list(ye[:8]), "exactData vs documented convolution of the phantom")
         with quiet():
             yf = A1(tp.model.forward(tp.exactSolution))
-        if not vclose(ye, yf, 1e-11):
+        if not vrel(ye, yf, 1e-11):
             ctx.fail("Deconvolution2D:exactData", desc, list(yf[:8]), list(ye[:8]), "exactData is not model.forward(exactSolution)")
-            if not vclose(ye, ydoc, 1e-9):
+            if not vrel(ye, ydoc, ytol):
                 ctx.fail("tie:Deconvolution2D:exactData", desc, list(yf[:8]), list(ye[:8]), "exactData is not model.forward(exactSolution)")
-        elif not vclose(ye, ydoc, 1e-9):
+        elif not vrel(ye, ydoc, ytol):
             ctx.fail("tie:Deconvolution2D:exactData", desc, outs[1][:160], list(ye[:8]), "exactData is not the documented convolution of the phantom")
         # Miscellaneous
         misc = getattr(tp, "Miscellaneous", None) or {}
@@ -681,7 +877,7 @@ def case_deconv2d(ctx, cuqi, T, B1, B2, cfg, sid):
         B2.add([f"noise {ntype} {q(nstd)} {qv(ye)} {qv(xi)}"], lambda o: cb_noise(o, ye))
         cov_stated = (np.full(n2, nstd ** 2) if not scaled else (ye * nstd) ** 2)
         cov_impl = np.asarray(tp.likelihood.distribution.cov, dtype=float).ravel()
-        if cov_impl.size not in (1, n2) or not vclose(np.broadcast_to(cov_impl, (n2,)), cov_stated, 1e-12):
+        if cov_impl.size not in (1, n2) or not vrel(np.broadcast_to(cov_impl, (n2,)), cov_stated, 1e-12):
             ctx.fail("Deconvolution2D:likelihood:cov", desc, list(cov_stated[:6]), list(cov_impl[:6]), "likelihood covariance is not the stated noise level")
         rs = np.random.RandomState(sid + 7)
         check_logd(ctx, B2, "Deconvolution2D", tp, desc, cov_stated, lambda x: Aasm @ x, rs, npts=1)
@@ -712,9 +908,9 @@ def case_deconv2d(ctx, cuqi, T, B1, B2, cfg, sid):
                 stated_noise_oracle(ctx, "tie:" + key, desc, data, ye, std, S, "randn")
             return
         r = kv(o[0])
-        if not vclose(data, fvec(r["path"]), 1e-9):
+        if not vrel(data, fvec(r["path"]), 1e-9):
             ctx.disagree("tie:" + key, desc, r["path"][:160], list(data[:6]), "data vs modelled sampling path")
-            if not vclose(data, fvec(r["doc"]), 1e-9):
+            if not vrel(data, fvec(r["doc"]), 1e-9):
                 ctx.fail("tie:" + key, desc, r["doc"][:160], list(data[:6]), "data are not exactData + stated noise")
         stated_noise_oracle(ctx, key, desc, data, ye, std, S, "randn")
 
@@ -785,12 +981,11 @@ def case_poisson(ctx, cuqi, B1, B2, cfg, sid):
     if src != "default":
         kw["source"] = sources[src]
     obs_idx = list(range(N))
-    if obs == "half":
-        kw["observation_grid_map"] = lambda g: g[g > ep / 2]
-    elif obs == "even":
-        kw["observation_grid_map"] = lambda g: g[::2]
+    if obs != "none":
+        kw["observation_grid_map"] = obs_map(obs, ep)
     if xs_custom is not None:
-        kw["exactSolution"] = np.array(xs_custom)
+        kw["exactSolution"] = np.array(xs_custom).astype(cfg.get("dtype", "float64"))
+    before = snap_arrays(kw)
     with scripted(sid) as S, quiet():
         try:
             tp = Poisson1D(**kw)
@@ -844,6 +1039,8 @@ def case_poisson(ctx, cuqi, B1, B2, cfg, sid):
             if r["same"] != "1":
                 ctx.disagree("tie:Poisson1D:assembly", d, "assembled = documented stiffness", "differs")
             u = fvec(r["u"]) if r["u"] != "_" else np.zeros(0)
+            if obs in MOVED:      # documented observation operator: interpolation of the solution at the moved nodes
+                u = interp_obs("Poisson1D", grid_range, u, obs_map(obs, ep)(grid_range))
             sols.append(u)
             with quiet():
                 try:
@@ -871,6 +1068,8 @@ def case_poisson(ctx, cuqi, B1, B2, cfg, sid):
             ctx.fail("Poisson1D:exactData", desc, list(yf[:6]), list(ye[:6]), "exactData is not model.forward(exactSolution)")
         if xs_custom is not None and not vclose(xs, np.array(xs_custom), 1e-14):
             ctx.fail("Poisson1D:exactSolution", desc, xs_custom[:6], list(xs[:6]), "exactSolution is not the one passed")
+        caller_objects_check(ctx, "Poisson1D", desc, kw, before, "construction+forward")
+        alias_check(ctx, "Poisson1D", desc, tp)
         snr_checks(ctx, B2, "Poisson1D", tp, desc, S, snr, sid, None, logd_scale=(0.25 if field[0] in ("kl", "map-exp") else 1.0),
                    positive=(field[0] in ("none", "step")))
 
@@ -883,12 +1082,11 @@ def case_heat(ctx, cuqi, B1, B2, cfg, sid):
     desc = {"problem": "Heat1D", **{k: (list(v) if isinstance(v, tuple) else v) for k, v in cfg.items()}}
     N = dim
     kw = dict(dim=dim, endpoint=ep, max_time=mt, SNR=snr, **field_kwargs(field))
-    if obs == "half":
-        kw["observation_grid_map"] = lambda g: g[g > ep / 2]
-    elif obs == "even":
-        kw["observation_grid_map"] = lambda g: g[::2]
+    if obs != "none":
+        kw["observation_grid_map"] = obs_map(obs, ep)
     if xs_custom is not None:
-        kw["exactSolution"] = np.array(xs_custom)
+        kw["exactSolution"] = np.array(xs_custom).astype(cfg.get("dtype", "float64"))
+    before = snap_arrays(kw)
     with scripted(sid) as S, quiet():
         try:
             tp = Heat1D(**kw)
@@ -949,6 +1147,8 @@ def case_heat(ctx, cuqi, B1, B2, cfg, sid):
                 sols.append(None)
                 continue
             u = fvec(r["u"]) if r["u"] != "_" else np.zeros(0)
+            if obs in MOVED:      # documented observation operator: spline interpolation of the final level at the moved nodes
+                u = interp_obs("Heat1D", grid, u, obs_map(obs, ep)(grid))
             sols.append(u)
             with quiet():
                 try:
@@ -977,6 +1177,8 @@ def case_heat(ctx, cuqi, B1, B2, cfg, sid):
         want = f"Noise type: Additive i.i.d. noise with mean zero and signal to noise ratio: {snr}"
         if tp.infoString != want:
             ctx.fail("Heat1D:infoString", desc, want, tp.infoString, "infoString does not state the SNR used")
+        caller_objects_check(ctx, "Heat1D", desc, kw, before, "construction+forward")
+        alias_check(ctx, "Heat1D", desc, tp)
         snr_checks(ctx, B2, "Heat1D", tp, desc, S, snr, sid, None)
 
     B1.add(lines, cb)
@@ -1053,10 +1255,12 @@ def case_wang(ctx, cuqi, B1, B2, cfg, sid):
     if nstd is not None:
         kw["noise_std"] = nstd
     if dopt is not None:
-        kw["data"] = {"int": int, "float": float, "arr": (lambda v: np.array(v, dtype=float))}[dopt[0]](dopt[1])
+        kw["data"] = {"int": int, "float": float, "arr": (lambda v: np.array(v, dtype=float)), "iarr": (lambda v: np.array(v, dtype=np.int64)),
+                      "f32": (lambda v: np.float32(v)), "0d": (lambda v: np.array(float(v)))}[dopt[0]](dopt[1])
+    before = snap_arrays(kw)
     with scripted(sid) as S, quiet():
         tp = WangCubic(**kw)
-    dval = None if dopt is None else (float(dopt[1][0]) if dopt[0] == "arr" else float(dopt[1]))
+    dval = None if dopt is None else (float(dopt[1][0]) if dopt[0] in ("arr", "iarr") else float(dopt[1]))
     rs = np.random.RandomState(sid + 5)
     pts = [np.round(rs.randn(2) * 4) / 4.0 for _ in range(3)] + [np.array([1.0, 0.0]), np.array([0.0, 0.0])]
     lines = [f"wangopt {'none' if dval is None else q(dval)} {'none' if nstd is None else q(nstd)}"] + [f"wang {q(x[0])} {q(x[1])}" for x in pts]
@@ -1118,6 +1322,7 @@ def case_wang(ctx, cuqi, B1, B2, cfg, sid):
                     ctx.disagree("tie:WangCubic:logd", d, ref, got)
                     ctx.fail("tie:WangCubic:logd", d, ref, got, "posterior.logd is not Gaussian loglik(stated data, noise_std) + logprior")
                     ctx.fail("WangCubic:logd", d, ref, got, "posterior.logd is not Gaussian loglik(stated data, noise_std) + logprior")
+        caller_objects_check(ctx, "WangCubic", desc, kw, before, "construction+logd")
         check_components(ctx, B2, "WangCubic", tp, desc)
 
     B1.add(lines, cb)
@@ -1215,6 +1420,75 @@ def run(ctx):
     for dopt in (None, ("int", 0), ("float", 0.0), ("arr", [0.0]), ("float", -2.0), ("int", 1), ("arr", [3.5]), ("float", 1e-9)):
         for nstd in (None, 1, 0.01, 4.0):
             case_wang(ctx, cuqi, B1, B2, dict(noise_std=nstd, data=dopt, prior=("gauss-q" if nstd == 4.0 else "none")), nid())
+
+    # ---- observation maps that MOVE nodes (same length, same end nodes): the observation must be the documented
+    #      interpolation of the PDE solution at the moved nodes, never the solution on the PDE grid
+    for kind in MOVED:
+        for dim_, fld in ((7, ("none",)), (9, ("step", 3)), (6, ("map-exp",))):
+            case_poisson(ctx, cuqi, B1, B2, dict(dim=dim_, endpoint=rng.choice([1, 2.0]), field=fld, SNR=50, obs=kind, source=rng.choice(["default", "lin"]),
+                                                exactSolution=None), nid())
+        for dim_, mt_, fld in ((6, 0.2, ("none",)), (8, 0.05, ("step", 2)), (5, 0.2, ("map-exp",))):
+            case_heat(ctx, cuqi, B1, B2, dict(dim=dim_, endpoint=rng.choice([1, 0.5]), max_time=mt_, field=fld, SNR=50, obs=kind,
+                                             exactSolution=(None if fld[0] != "none" else [float((3 * i) % 5 - 1) for i in range(dim_)])), nid())
+
+    # ---- G1: non-float64 user arrays (phantom / PSF / exactSolution / data) must give the float64 results
+    for dt in ("int64", "int32", "float32", "bool"):
+        vals = [1.0, 3, 0, 2, 5, 1] if dt != "bool" else [1.0, 1, 0, 0, 1, 1]
+        case_deconv1d(ctx, cuqi, T, B1, B2, dict(dim=6, psf=("arr", [1.0, 2.0, 1.0]), bc="periodic", phantom=("arr", vals), noise_type="gaussian", noise_std=0.25,
+                                                prior=("none", None), dtype=dt), nid())
+        case_deconv1d(ctx, cuqi, T, B1, B2, dict(dim=6, psf=("arr", [0.0, 0, 1, 2, 1, 0]), bc="periodic", phantom=("arr", vals), noise_type="gaussian", noise_std=0.25,
+                                                prior=("none", None), dtype=dt, legacy=True), nid())
+        if dt != "bool":
+            case_deconv2d(ctx, cuqi, T, B1, B2, dict(dim=3, psf=("arr", [[0.0, 1, 0], [1, 2, 1], [0, 1, 0]]), bc="zero", phantom=("arr", [float(i + 1) for i in range(9)]),
+                                                    noise_type="gaussian", noise_std=0.25, prior=("none", None), dtype=dt), nid())
+            case_poisson(ctx, cuqi, B1, B2, dict(dim=4, endpoint=1, field=("none",), SNR=50, obs="none", source="const", exactSolution=[1.0, 2, 1, 3], dtype=dt), nid())
+            case_heat(ctx, cuqi, B1, B2, dict(dim=4, endpoint=1, max_time=0.05, field=("none",), SNR=50, obs="none", exactSolution=[0.0, 1, 0, 2], dtype=dt), nid())
+    for dopt in (("iarr", [0]), ("iarr", [3]), ("f32", 3.5), ("0d", 0.0), ("0d", -2.0)):
+        case_wang(ctx, cuqi, B1, B2, dict(noise_std=0.5, data=dopt, prior="none"), nid())
+
+    # ---- G4: extreme scales (no absolute tolerances in the comparisons of these quantities)
+    for sc in (1e-12, 1e12):
+        for ntype in ("gaussian", "scaledGaussian"):
+            case_deconv1d(ctx, cuqi, T, B1, B2, dict(dim=6, psf=("arr", [1.0, 2.0, 1.0]), bc="periodic", phantom=("arr", [v * sc for v in (2.0, 1, 4, 3, 2, 5)]),
+                                                    noise_type=ntype, noise_std=(0.25 * sc if ntype == "gaussian" else 0.25), prior=("none", None)), nid())
+            case_deconv2d(ctx, cuqi, T, B1, B2, dict(dim=3, psf=("arr", [[0.0, 1, 0], [1, 2, 1], [0, 1, 0]]), bc="periodic", phantom=("arr", [v * sc for v in (2.0, 1, 4, 3, 2, 5, 1, 2, 3)]),
+                                                    noise_type=ntype, noise_std=(0.25 * sc if ntype == "gaussian" else 0.25), prior=("none", None)), nid())
+        case_deconv1d(ctx, cuqi, T, B1, B2, dict(dim=6, psf=("arr", [sc, 2.0 * sc, sc]), bc="zero", phantom=("arr", [2.0, 1, 4, 3, 2, 5]),
+                                                noise_type="gaussian", noise_std=0.25 * sc, prior=("none", None)), nid())
+        case_heat(ctx, cuqi, B1, B2, dict(dim=4, endpoint=1, max_time=0.05, field=("none",), SNR=50, obs="none", exactSolution=[v * sc for v in (1.0, 2, 0, 3)]), nid())
+        case_abel(ctx, cuqi, B1, B2, dict(dim=4, endpoint=(2.0 if sc > 1 else 0.5), field=("none",), SNR=(1e6 if sc > 1 else 1e-3)), nid())
+
+    # ---- G2/G3/G5: read-only operations (MAP, ML, sample_posterior) on problems whose prior has a non-zero mean:
+    #      what the problem hands out is unchanged, repeated calls agree, and agree with a fresh identical problem
+    from cuqi.testproblem import Deconvolution1D as _D1, Deconvolution2D as _D2, Heat1D as _H1, Poisson1D as _P1, Abel1D as _A1, WangCubic as _WC
+    def _b(cls, seed, **kw):
+        def build():
+            with scripted(seed):
+                return cls(**{k: (v() if callable(v) and k == "prior" else (v.copy() if isinstance(v, np.ndarray) else v)) for k, v in kw.items()})
+        return build
+    hist = [
+        ("Deconvolution1D", {"dim": 6, "BC": "periodic", "prior": "N(1,4)"}, _b(_D1, 11, dim=6, PSF=np.array([1.0, 2, 1]), phantom=np.array([1.0, 3, 0, -2, 5, 1]), noise_std=0.25,
+                                                                               prior=lambda: _G(np.ones(6), 4.0, name="x")), None, ("MAP", "MAP", "ML", "MAP"), 20),
+        ("Deconvolution1D", {"dim": 8, "legacy": True, "prior": "N(-2..,1)"}, _b(_D1, 12, dim=8, use_legacy=True, phantom=np.arange(8.0), noise_type="scaledGaussian", noise_std=0.5,
+                                                                               prior=lambda: _G(np.linspace(-2, 2, 8), 1.0, name="x")), None, ("MAP", "MAP"), 0),
+        ("Deconvolution1D", {"dim": 6, "BC": "zero", "prior": "reassigned N(3,0.25)"}, _b(_D1, 13, dim=6, PSF=np.array([1.0, 2, 4]), BC="zero", phantom=np.array([1.0, 3, 0, -2, 5, 1]), noise_std=0.25),
+         (lambda: _G(3 * np.ones(6), 0.25, name="x")), ("MAP", "MAP"), 0),
+        ("Deconvolution2D", {"dim": 3, "prior": "N(1,4)"}, _b(_D2, 14, dim=3, PSF=np.array([[0.0, 1, 0], [1, 2, 1], [0, 1, 0]]), phantom=np.arange(1.0, 10).reshape(3, 3), noise_std=0.25,
+                                                             prior=lambda: _G(np.ones(9), 4.0, geometry=Image2D((3, 3)), name="x")), None, ("MAP", "MAP"), 10),
+        ("Abel1D", {"dim": 4, "prior": "reassigned N(1,1)"}, _b(_A1, 15, dim=4, endpoint=2.0, SNR=20), (lambda: _G(np.ones(4), 1.0, name="x")), ("MAP", "MAP", "ML"), 10),
+        ("Heat1D", {"dim": 4, "prior": "reassigned N(0.1,1)"}, _b(_H1, 16, dim=4, SNR=20), (lambda: _G(0.1 * np.ones(4), 1.0, name="x")), ("MAP", "MAP"), 0),
+        ("Poisson1D", {"dim": 4, "prior": "reassigned N(2,0.01)"}, _b(_P1, 17, dim=4, SNR=20), (lambda: _G(2 * np.ones(4), 0.01, name="x")), ("MAP", "MAP"), 0),
+        ("WangCubic", {"prior": "N((1,.5),1)", "data": 0}, _b(_WC, 18, data=0, noise_std=0.5, prior=lambda: _G(np.array([1.0, 0.5]), 1.0, name="x")), None, ("MAP", "MAP"), 10),
+    ]
+    for name_, d_, build_, np_, ops_, smp_ in hist:
+        try:
+            check_history(ctx, name_, {"problem": name_, **d_}, build_, new_prior=np_, ops=ops_, sample=smp_)
+        except Exception as e:
+            import traceback
+            tb = traceback.format_exc()
+            if "/cuqi/" not in tb:
+                raise
+            ctx.fail(f"{name_}:history:crash", {"problem": name_, **d_}, "the call history runs", repr(e)[:160], "a call history on a test problem raised")
 
     # ---- signed PSFs (negative, mixed-sign, tiny +-1e-14 next to O(1), zero-sum, all-negative), every BC, odd/even sizes:
     #      custom PSFs are used as given (no normalisation, no thresholding) — compared entry by entry, exactly in 1-D
